@@ -17,7 +17,7 @@ MANIFEST = {
              'members in input order; the [1:] trick is proved correct from sortedness), C13_pathB_refines (np.unique(return_inverse) + one mask per key = the same), C13_paths_agree, C13_pathA_partition, '
              'C13_pathA_is_S_up_to_group_order, C13_paths_agree_int (hypotheses satisfiable), C13_fallback_partition + C13_fallback_exact_when_repr_separates (string-representation branch), C13_apply_one_per_group, '
              'C13_code_shape (sort kind, roll amount, [1:] and the path-choice expression REGENERATED from frame.py/util.py agree with the model), '
-             'C13_window_keywords_forwarded (every keyword of Frame/Series._axis_window reaches _axis_window_items and axis_window_items, lists REGENERATED), C13_windows_exact (the loop of axis_window_items with index arithmetic REGENERATED from container_util.py = the anchor enumeration, every parameter tuple), C13_windows_terminate, '
+             'C13_group_unique_axis (TypeBlocks.group calls np.unique with axis= exactly when the key array is 2-D, along the grouping axis -- decision REGENERATED), C13_window_keywords_forwarded (every keyword of Frame/Series._axis_window reaches _axis_window_items and axis_window_items, lists REGENERATED), C13_windows_exact (the loop of axis_window_items with index arithmetic REGENERATED from container_util.py = the anchor enumeration, every parameter tuple), C13_windows_terminate, '
              'C13_windows_sound / C13_window_inside / C13_windows_complete (each yielded window is the contiguous slice of its anchor with the stated size; every anchor inside the container with an existing label is yielded). '
              'Correspondence: API-level runs of Series/Frame iter_group_items, iter_group_labels_items, iter_group(...).apply, iter_window_items over all block layouts, both axes, single/multiple keys, '
              'int/str/bool/float/object/mixed keys, hierarchical indices, exhaustive window parameter grid; kernel-level runs of util.array_to_groups_and_locations; malformed inputs.'),
@@ -25,7 +25,7 @@ MANIFEST = {
              'distinct values with positions, both under val_leb; np.unique raises TypeError on unorderable object arrays and on 2-D object arrays with axis=; str(x) of ints/strs/bools/None; l[a:b] for a,b>=0 = firstn/skipn. '
              'Modelled, not proved about the code: that frame_sorted/_extract take whole rows (C03/C04/C12 territory; observed through the complete group contents), dtype resolution of the key array (a rule on dtype classes). '
              'The order hypotheses of the path theorems are proved satisfiable for Z only (val_leb on the generated key classes is validated by the correspondence, not proved). '
-             'Known findings (model follows the code, spec does not): C13-str-fallback, C13-framego-axis1-sort-path, C13-window-array-axis1-empty. Repaired after this check derived them (regression cases kept): one-row list key on axis 1 (cf0ec12), string-branch labels on axis 1 (f8cd3fd), Frame.iter_group_labels over several depths (b935330). NaN keys are outside the generated domain '
+             'Known findings (model follows the code, spec does not): C13-str-fallback, C13-framego-axis1-sort-path, C13-window-array-axis1-empty, C13-window-apply-index-constructor, C13-window-apply-empty-hier, C13-series-group-apply-index-constructor (for the last three only S is compared, the model does not follow the wrong index construction). Repaired after this check derived them (regression cases kept): one-row list key on axis 1 (cf0ec12), string-branch labels on axis 1 (f8cd3fd), Frame.iter_group_labels over several depths (b935330). Not covered: the map_any / map_fill / map_all family of the iterator delegates (mappings keyed by the iterated value: group and window values are containers, not hashable), apply_pool with processes (threads only; process pools are C18), Quilt sources of axis_window_items (container_util.py:477, C19), window_valid / window_func other than the two callbacks used (even number of rows; reverse), timedelta64 and complex keys, label depth out of range. NaN keys are outside the generated domain '
              '(the two paths visibly disagree on them: one group per NaN on the sort path, one NaN group on the unique path).'),
     'technique': 'refinement of two implementation models to one specification + partition laws; loop = closed-form enumeration with regenerated arithmetic; differential correspondence by vm_compute',
 }
@@ -33,13 +33,13 @@ PROPERTY_FILES = ['Properties/C13.v']
 REFUTED_FILES = ['Refuted/C13.v']
 MODEL_FILES = ['SF/GroupVal.v', 'SF/WindowSpec.v', 'SF/Window.v', 'SF/GroupCode.v', 'Gen/Gen_c13.v']
 GENERATED_FILES = ['Gen/Gen_c13.v']      # overwritten with a broken stub by targets.py when generate() raises
-IMPORTS = 'Require Import SF.Prelude SF.PySlice SF.Value SF.Group SF.GroupVal SF.WindowSpec SF.Window Gen.Gen_c13.'
+IMPORTS = 'Require Import SF.Prelude SF.PySlice SF.Dtype SF.Value SF.Group SF.GroupVal SF.WindowSpec SF.Window Gen.Gen_c13.'
 # the specification side needs nothing generated: it is still evaluated (search for a failing input) when generate() raises or a model no longer builds
-IMPORTS_SPEC_ONLY = 'Require Import SF.Prelude SF.PySlice SF.Value SF.Group SF.GroupVal SF.WindowSpec.'
+IMPORTS_SPEC_ONLY = 'Require Import SF.Prelude SF.PySlice SF.Dtype SF.Value SF.Group SF.GroupVal SF.WindowSpec.'
 RULE = ('api strata: public iter_group_items / iter_group_labels_items / iter_group*.apply / iter_window_items calls on generated Series and Frames -- exhaustive value sequences of length <= 4 over 3 values for Series, '
         'every block layout of frames with <= 3 columns (thorough: <= 4), both axes, element/list/slice keys of 1-3 positions, key dtypes int/str/bool/float/object(orderable, mixed, colliding str()), flat and hierarchical axes, '
         'one group / all-distinct / duplicated keys; windows: the grid n<=6, size<=4, step<=3, shifts in [-3,3], increment in [-1,1], window_sized on/off (thorough: complete, quick: boundary + random sample) on Series (Series and array windows), plus Frames on both axes; longer axes (17-60 positions, 2-4 interleaved keys of dtype int64/float64/bool/str/int16/uint8, both axes) on the sort path so that an unstable sort shows as a changed order inside a group; a second window grid n<=9, size<=3, start_shift down to -(n+2), label_shift up to n+2 (thorough: complete; quick: every run samples the anchors lying wholly left of the container that still have a label); '
-        'the values-only forms list(iter_window(...)) / list(iter_window_array(...)) on Series and on Frames of both axes (sequence of windows = map snd of the items), weighted to label_shift != 0; FrameGO receivers whose first yielded group is grown in place during the iteration; kernel stratum: util.array_to_groups_and_locations called directly; malformed stream: absent key, invalid axis, size<=0, step<0. '
+        'the other public forms of the same iterators (iter_group / iter_group_labels iterated without keys, apply over values and over items, apply_iter, apply_iter_items, apply_pool with threads over values and items; window_valid / window_func callbacks and the apply family over windows) on Series, SeriesHE, Frame, FrameGO, FrameHE; key dtypes also uint8, bytes, datetime64[D]; date-typed inner levels and IndexDate indices; integer (non-positional) labels; ndarray-of-labels and Boolean-mask keys; empty and 1x1 shapes; the values-only forms list(iter_window(...)) / list(iter_window_array(...)) on Series and on Frames of both axes (sequence of windows = map snd of the items), weighted to label_shift != 0; FrameGO receivers whose first yielded group is grown in place during the iteration; kernel stratum: util.array_to_groups_and_locations called directly; malformed stream: absent key, invalid axis, size<=0, step<0. '
         'A group case is non-trivial when it has >= 2 groups and some group with >= 2 members; a window case when at least one window is yielded and at least one anchor is rejected or clipped; '
         'distinct = distinct (call, input, parameters).')
 ASSUMPTIONS = [
@@ -339,6 +339,44 @@ def _gen_group(repo):
 
 
 _SE = 'static_frame/core/series.py'
+_TB = 'static_frame/core/type_blocks.py'
+
+
+def _gen_unique_axis(repo):
+    """TypeBlocks.group: when is np.unique called with axis=, and with which axis (the model takes: iff the key array is 2-D,
+    along the grouping axis -- also for a key selecting a single row/column)"""
+    with open(os.path.join(repo, _TB)) as f:
+        tree = ast.parse(f.read())
+    fn = _method(tree, 'TypeBlocks', 'group')
+    top = [st for st in fn.body if isinstance(st, ast.If) and ast.unparse(st.test) == 'axis == 0']
+    _need(len(top) == 1 and len(top[0].orelse) == 1 and isinstance(top[0].orelse[0], ast.If) and ast.unparse(top[0].orelse[0].test) == 'axis == 1',
+          'TypeBlocks.group: if axis == 0 / elif axis == 1')
+    init = [st for st in fn.body if isinstance(st, ast.Assign) and ast.unparse(st) == 'unique_axis = None']
+    _need(len(init) == 1, 'unique_axis = None')
+    atoms = {'group_source.ndim > 1': 'two_d', 'group_source.shape[0] > 1': 'many_rows', 'group_source.shape[1] > 1': 'many_cols'}
+
+    def bexpr(node):
+        text = ast.unparse(node)
+        if text in atoms:
+            return atoms[text]
+        if isinstance(node, ast.BoolOp):
+            op = '||' if isinstance(node.op, ast.Or) else '&&'
+            return '(' + f' {op} '.join(bexpr(x) for x in node.values) + ')'
+        if isinstance(node, ast.UnaryOp) and isinstance(node.op, ast.Not):
+            return f'(negb {bexpr(node.operand)})'
+        raise Shape(f'unique_axis condition {text[:60]}')
+
+    def branch(body, source):
+        _need(len(body) == 2 and ast.unparse(body[0]) == source and isinstance(body[1], ast.If) and not body[1].orelse and len(body[1].body) == 1,
+              f'branch shape: {source}; if ...: unique_axis = k')
+        v = _assign(body[1].body[0], 'unique_axis')
+        _need(isinstance(v, ast.Constant) and isinstance(v.value, int), 'unique_axis = <int>')
+        return f'(if {bexpr(body[1].test)} then Some {lit.z(v.value)} else None)'
+
+    b0 = branch(top[0].body, 'group_source = self._extract_array(column_key=key)')
+    b1 = branch(top[0].orelse[0].body, 'group_source = self._extract_array(row_key=key)')
+    _need(any(ast.unparse(n) == 'array_to_groups_and_locations(group_source, unique_axis)' for n in ast.walk(fn)), 'array_to_groups_and_locations(group_source, unique_axis)')
+    return [f'Definition tb_group_unique_axis (axis : Z) (two_d many_rows many_cols : bool) : option Z := if axis =? 0 then {b0} else {b1}.']
 
 
 def _gen_forwarding(repo):
@@ -371,7 +409,7 @@ def generate(repo):
     head = ['(* GENERATED on every run by tools/sfv/props/c13.py generate() from',
             f'   {_CU}:axis_window_items, {_FR}:Frame._axis_group_sort_items/_axis_group_loc_items/sort_values, {_UT} -- do not edit *)',
             'Require Import SF.Prelude.', 'Local Open Scope string_scope.', 'Local Open Scope Z_scope.', '']
-    return {'Gen/Gen_c13.v': '\n'.join(head + _gen_window(repo) + [''] + _gen_group(repo) + [''] + _gen_forwarding(repo)) + '\n'}
+    return {'Gen/Gen_c13.v': '\n'.join(head + _gen_window(repo) + [''] + _gen_group(repo) + [''] + _gen_forwarding(repo) + [''] + _gen_unique_axis(repo)) + '\n'}
 
 
 # --------------------------------------------------------------------------- literals / observation
@@ -450,7 +488,7 @@ def brief(out, st):
 
 # --------------------------------------------------------------------------- dtype / key classes (the harness's own rules, not the implementation's)
 def dclass(dt):
-    return {'i': 'num', 'u': 'num', 'f': 'num', 'b': 'bool', 'U': 'str', 'O': 'obj'}[np.dtype(dt).kind]
+    return {'i': 'num', 'u': 'num', 'f': 'num', 'b': 'bool', 'U': 'str', 'O': 'obj', 'S': 'bytes', 'M': 'date'}[np.dtype(dt).kind]
 
 
 def resolved_obj(dts):
@@ -518,9 +556,14 @@ _VALS = {
     'obj-int': [10, 9, 1],           # object dtype, orderable: np.unique succeeds
     'obj-mix': [1, 'a', None, 10],   # unorderable, str() separates the keys
     'obj-col': [1, '1', 'a'],        # unorderable, str() collides (1 / '1')
+    'uint': [3, 1, 200, 7],
+    'bytes': [b'a', b'b', b'ab', b'B'],
+    'date': [np.datetime64('2020-01-03'), np.datetime64('2019-12-31'), np.datetime64('2020-01-01')],
 }
-_DTYPE = {'int': np.int64, 'float': np.float64, 'str': '<U2', 'bool': bool, 'obj-int': object, 'obj-mix': object, 'obj-col': object}
-_FAMILY = {'N': ['int', 'float'], 'M': ['int', 'str', 'bool', 'obj-int', 'obj-mix', 'obj-col'], 'I': ['int'], 'S': ['str']}
+_DTYPE = {'int': np.int64, 'float': np.float64, 'str': '<U2', 'bool': bool, 'obj-int': object, 'obj-mix': object, 'obj-col': object,
+          'uint': np.uint8, 'bytes': 'S2', 'date': 'datetime64[D]'}
+_FAMILY = {'N': ['int', 'float', 'uint'], 'M': ['int', 'str', 'bool', 'obj-int', 'obj-mix', 'obj-col'], 'I': ['int'], 'S': ['str'],
+           'U': ['uint'], 'B': ['bytes'], 'T': ['date']}
 
 
 def column_values(rng, kind, n, mode):
@@ -549,7 +592,7 @@ def make_array(kind, values):
 def hier_labels(rng, n, depth_kinds=('str', 'int')):
     '''n tree-ordered distinct tuples (outer labels contiguous), inner labels repeating across outers'''
     outs = ['a', 'b', 'c', 'd']
-    inner = [1, 2, 3] if depth_kinds[1] == 'int' else ['x', 'y', 'z']
+    inner = {'int': [1, 2, 3], 'str': ['x', 'y', 'z'], 'date': [np.datetime64('2020-01-01'), np.datetime64('2020-01-02'), np.datetime64('2020-02-01')]}[depth_kinds[1]]
     labels = []
     o = 0
     while len(labels) < n:
@@ -568,8 +611,9 @@ def make_frame(ctx, family, nrows, ncols, mode=None, hier_index=False, hier_colu
     mode = mode or rng.choice(['dup', 'dup', 'dup', 'single', 'distinct'])
     cols_values = [column_values(rng, k, nrows, mode if (mode != 'distinct' or k in ('int', 'float', 'str', 'obj-int')) else 'dup') for k in kinds]
     arrays = [make_array(k, v) for k, v in zip(kinds, cols_values)]
-    index_labels = hier_labels(rng, nrows) if hier_index else [f'r{i}' for i in range(nrows)]
-    col_labels = hier_labels(rng, ncols) if hier_columns else [f'c{j}' for j in range(ncols)]
+    int_labels = rng.random() < 0.12       # integer labels that are not positions
+    index_labels = hier_labels(rng, nrows) if hier_index else ([10 * i + 5 for i in range(nrows)] if int_labels else [f'r{i}' for i in range(nrows)])
+    col_labels = hier_labels(rng, ncols) if hier_columns else ([100 - j for j in range(ncols)] if int_labels else [f'c{j}' for j in range(ncols)])
     index = sf.IndexHierarchy.from_labels(index_labels) if hier_index and nrows else (sf.Index(index_labels) if not hier_index else None)
     columns = sf.IndexHierarchy.from_labels(col_labels) if hier_columns and ncols else (sf.Index(col_labels) if not hier_columns else None)
     dts = [a.dtype for a in arrays]
@@ -595,12 +639,64 @@ def spec_desc(spec, layout):
 
 
 # --------------------------------------------------------------------------- group strata
-def frame_group_case(ctx, spec, layout, axis, keykind, positions, stratum, apply_=False, go=False):
+_FORMS = ['values', 'apply', 'apply_items', 'apply_iter', 'apply_iter_items', 'apply_pool', 'apply_pool_items']
+
+
+def form_case(ctx, stratum, desc, tags, keys, rows, axis, mcall, scall, it_values, it_items, form, callname, series_apply_finding=False):
+    '''the other public forms over the same group iterator: iterated without keys, apply over values / items,
+    apply_iter, apply_iter_items, apply_pool (threads); func = bitmask of the member labels'''
+    code = {_hash_label(l): 1 << i for i, (l, _) in enumerate(rows)}
+    member_axis = (lambda g: g.index if (g.ndim == 1 or axis == 0) else g.columns)
+    fv = lambda g: sum(code[_hash_label(l)] for l in lit.labels(member_axis(g)))
+    fi = lambda k, g: fv(g)
+    as_pair = lambda sr: ([key_py(k) for k in lit.labels(sr.index)], sr.values.tolist())
+    ctx.count(f'{stratum}:{form}')
+    tags = dict(tags, form=form)
+    if form == 'values':
+        st, out = run(lambda: [axis_rows(g, axis) for g in it_values()])
+        obs = res_lit(st, out, lambda o: lit.lst([rows_lit(r) for r in o]))
+        m, sp = f'gvres_eqb {obs} (gvalues {mcall})', f'gvres_same {obs} (gvalues {scall})'
+        call = f'list({callname})'
+    elif form == 'apply_iter':
+        st, out = run(lambda: [int(v) for v in it_values().apply_iter(fv)])
+        obs = res_lit(st, out, lit.vlist)
+        m = f'avres_eqb {obs} (avalues (M_apply_api {rows_lit(rows)} {mcall}))'
+        sp = f'avres_same {obs} (avalues (S_apply_api {rows_lit(rows)} {scall}))'
+        call = f'list({callname}.apply_iter(bitmask))'
+    else:
+        if form == 'apply':
+            st, out = run(lambda: as_pair(it_values().apply(fv)))
+            call = f'{callname}.apply(bitmask)'
+        elif form == 'apply_items':
+            st, out = run(lambda: as_pair(it_items().apply(fi)))
+            call = f'{callname.replace("(", "_items(", 1)}.apply(lambda k, g: bitmask(g))'
+        elif form == 'apply_pool':
+            st, out = run(lambda: as_pair(it_values().apply_pool(fv, use_threads=True, max_workers=2)))
+            call = f'{callname}.apply_pool(bitmask, use_threads=True, max_workers=2)'
+        elif form == 'apply_pool_items':
+            st, out = run(lambda: as_pair(it_items().apply_pool(lambda kv: fv(kv[1]), use_threads=True, max_workers=2)))
+            call = f'{callname.replace("(", "_items(", 1)}.apply_pool(lambda kv: bitmask(kv[1]), use_threads=True, max_workers=2)'
+        else:
+            def pairs():
+                kv = list(it_values().apply_iter_items(fv))
+                return [key_py(k) for k, _ in kv], [int(v) for _, v in kv]
+            st, out = run(pairs)
+            call = f'list({callname}.apply_iter_items(bitmask))'
+        obs = res_lit(st, out, apply_lit)
+        m = f'ares_eqb {obs} (M_apply_api {rows_lit(rows)} {mcall})'
+        sp = f'ares_same {obs} (S_apply_api {rows_lit(rows)} {scall})'
+    desc = dict(desc, call=call, observed=repr(out)[:400])
+    if series_apply_finding and form in ('apply', 'apply_items', 'apply_pool', 'apply_pool_items'):
+        tags, m = dict(tags, finding='C13-series-group-apply-index-constructor'), None     # only S is compared (the model does not follow)
+    return Case(stratum, desc, m=m, s=sp, tags=tags, nontrivial=nontrivial_groups(keys))
+
+
+def frame_group_case(ctx, spec, layout, axis, keykind, positions, stratum, apply_=False, go=False, receiver=None, form=None):
     '''one call of Frame.iter_group_items (or iter_group(...).apply) -> Case.
     go: the receiver is a FrameGO and the first yielded group, when it is itself a FrameGO, is GROWN in place (a column is
     added) while the iteration is suspended: the remaining groups must still be the original rows with the original columns'''
     import static_frame as sf
-    f = build(spec, layout, cls=sf.FrameGO if go else None)
+    f = build(spec, layout, cls=sf.FrameGO if go else (getattr(sf, receiver) if receiver else None))
     labels_key_axis = spec['col_labels'] if axis == 0 else spec['index_labels']
     if keykind == 'element':
         key = labels_key_axis[positions[0]]
@@ -608,6 +704,15 @@ def frame_group_case(ctx, spec, layout, axis, keykind, positions, stratum, apply
         multi = False
     elif keykind == 'list':
         key = [labels_key_axis[p] for p in positions]
+        ks = ('cells', positions)
+        multi = True
+    elif keykind == 'array':    # ndarray of labels
+        key = np.array([labels_key_axis[p] for p in positions])
+        ks = ('cells', positions)
+        multi = True
+    elif keykind == 'mask':     # Boolean ndarray over the key axis: the True positions in ascending order
+        positions = sorted(set(positions))
+        key = np.array([i in positions for i in range(len(labels_key_axis))], dtype=bool)
         ks = ('cells', positions)
         multi = True
     else:  # slice (inclusive of the stop label)
@@ -638,7 +743,7 @@ def frame_group_case(ctx, spec, layout, axis, keykind, positions, stratum, apply
     scall = f'(S_frame_group_api {lit.z(axis)} (Some {keyspec_lit(ks)}) {rows_lit(rows)})'
     other = (lambda g: lit.labels(g.columns)) if axis == 0 else (lambda g: lit.labels(g.index))
     want_other = other(f)
-    if not apply_:
+    if not apply_ and form is None:
         def observe():
             out = []
             for k, g in f.iter_group_items(key, axis=axis):
@@ -655,10 +760,15 @@ def frame_group_case(ctx, spec, layout, axis, keykind, positions, stratum, apply
         obs = res_lit(st, out, groups_lit)
         desc.update(call=(f'f = FrameGO(...); for i, (k, g) in enumerate(f.iter_group_items({key!r}, axis={axis})): record g; if i == 0 and isinstance(g, FrameGO): g["__grown__"] = 0'
                           if go else f'f.iter_group_items({key!r}, axis={axis})'), observed=brief(out, st))
-        if go:
-            tags = dict(tags, receiver='FrameGO')
+        if go or receiver:
+            tags = dict(tags, receiver='FrameGO' if go else receiver)
         return Case(stratum, desc, m=f'gres_eqb {obs} {mcall}', s=f'gres_same {obs} {scall}', py_fail=py_fail, tags=tags,
                     nontrivial=nontrivial_groups(keys))
+    if form is not None:
+        if receiver:
+            tags = dict(tags, receiver=receiver)
+        return form_case(ctx, stratum, desc, tags, keys, rows, axis, mcall, scall, lambda: f.iter_group(key, axis=axis),
+                         lambda: f.iter_group_items(key, axis=axis), form, f'f.iter_group({key!r}, axis={axis})')
     code = {_hash_label(l): 1 << i for i, (l, _) in enumerate(rows)}
     func = (lambda g: sum(code[_hash_label(l)] for l in lit.labels(g.index if axis == 0 else g.columns)))
     st, out = run(lambda: f.iter_group(key, axis=axis).apply(func))
@@ -679,6 +789,13 @@ def apply_lit(out):
     return f'({lit.lst([okey_lit(k) for k in labels])}, {lit.vlist(values)})'
 
 
+def series_index_special(s):
+    '''class of finding C13-series-group-apply-index-constructor: the index is not a plain Index, so index.from_labels
+    (used by Series.iter_group(...).apply to build the result index from the GROUP KEYS) is a typed / hierarchical constructor'''
+    import static_frame as sf
+    return len(s) >= 1 and type(s.index) not in (sf.Index, sf.IndexGO)
+
+
 def series_spec(ctx, kind, values, hier=False):
     import static_frame as sf
     n = len(values)
@@ -686,6 +803,9 @@ def series_spec(ctx, kind, values, hier=False):
     arr = make_array(kind, values)
     if hier and n:
         index = sf.IndexHierarchy.from_labels(index_labels)
+    elif n and not hier and ctx.rng.random() < 0.1:      # a date-typed index (IndexDate, datetime64[D] labels)
+        index = sf.IndexDate([np.datetime64('2020-02-27') + i for i in range(n)])
+        index_labels = [key_py(l) for l in lit.labels(index)]
     else:
         index = sf.Index(index_labels) if n else sf.Index(())
         index_labels = index_labels if n else []
@@ -728,21 +848,25 @@ def series_group_cases(ctx):
         s, index_labels = series_spec(ctx, kind, values)
         rows = axis_rows(s, 0)
         obj = _DTYPE[kind] is object
-        code = {l: 1 << i for i, l in enumerate(index_labels)}
+        code = {_hash_label(l): 1 << i for i, (l, _) in enumerate(rows)}
+        fv = lambda g: sum(code[_hash_label(l)] for l in lit.labels(g.index))
         items = ctx.rng.random() < 0.5
         if items:
-            st, out = run(lambda: s.iter_group_items().apply(lambda k, g: sum(code[l] for l in g.index)))
+            st, out = run(lambda: s.iter_group_items().apply(lambda k, g: fv(g)))
         else:
-            st, out = run(lambda: s.iter_group().apply(lambda g: sum(code[l] for l in g.index)))
+            st, out = run(lambda: s.iter_group().apply(fv))
         if st == 'ok':
             out = ([key_py(k) for k in lit.labels(out.index)], out.values.tolist())
         obs = res_lit(st, out, apply_lit)
         tags = fallback_tags({'api': 'series.iter_group.apply', 'dtype': kind}, obj, False, values)
+        special_index = series_index_special(s)
+        if special_index:
+            tags = dict(tags, finding='C13-series-group-apply-index-constructor')
         ctx.count('series-apply')
         yield Case('api:series.iter_group.apply',
                    {'call': f's.iter_group{"_items" if items else ""}().apply(bitmask of member labels)', 'values': [repr(v) for v in values],
                     'index': index_labels, 'kind': kind, 'observed': repr(out)},
-                   m=f'ares_eqb {obs} (M_apply_api {rows_lit(rows)} (M_unique_api {lit.b(obj)} (KCell 0) {rows_lit(rows)}))',
+                   m=None if special_index else f'ares_eqb {obs} (M_apply_api {rows_lit(rows)} (M_unique_api {lit.b(obj)} (KCell 0) {rows_lit(rows)}))',
                    s=f'ares_same {obs} (S_apply_api {rows_lit(rows)} (S_group_api (KCell 0) {rows_lit(rows)}))',
                    tags=tags, nontrivial=nontrivial_groups(values))
 
@@ -755,8 +879,13 @@ def choose_key(ctx, n_positions):
     if r < 0.8:
         k = ctx.rng.randint(1, min(3, n_positions))
         positions = ctx.rng.sample(range(n_positions), k)
-        if ctx.rng.random() < 0.15:
+        r2 = ctx.rng.random()
+        if r2 < 0.15:
             positions.append(ctx.rng.choice(positions))     # a REPEATED key label: the key tuple repeats that cell
+        elif r2 < 0.3:
+            return 'array', positions
+        elif r2 < 0.45:
+            return 'mask', positions
         return 'list', positions
     a = ctx.rng.randrange(n_positions)
     b = ctx.rng.randint(a, min(n_positions - 1, a + 2))
@@ -766,7 +895,7 @@ def choose_key(ctx, n_positions):
 def frame_group_cases(ctx):
     # exhaustive over layouts: small frames, every layout, a handful of keys each
     for _ in range(ctx.n(70, 500)):
-        family = ctx.rng.choice(['N', 'M', 'M', 'I', 'S'])
+        family = ctx.rng.choice(['N', 'M', 'M', 'I', 'S', 'U', 'B', 'T'])
         ncols = ctx.rng.randint(1, 3 if ctx.tier == 'quick' else 4)
         nrows = ctx.rng.randint(1, 7)
         hier = ctx.rng.random() < 0.12
@@ -789,6 +918,80 @@ def frame_group_cases(ctx):
         yield frame_group_case(ctx, spec, layout, axis, keykind, positions, 'api:frame.iter_group.apply', apply_=True)
 
 
+def forms_cases(ctx):
+    '''values-only iteration, apply over items, apply_iter, apply_iter_items, apply_pool(threads) -- Series, Frame on both
+    axes, label-depth grouping; HE receivers'''
+    import static_frame as sf
+    for i in range(ctx.n(72, 600)):
+        form = _FORMS[i % len(_FORMS)]
+        which = ['frame', 'frame', 'series', 'labels'][(i // len(_FORMS)) % 4]
+        if which == 'frame':
+            family = ctx.rng.choice(['N', 'M', 'I', 'S', 'U', 'B', 'T'])
+            spec = make_frame(ctx, family, ctx.rng.randint(1, 6), ctx.rng.randint(1, 3))
+            axis = ctx.rng.choice([0, 0, 1])
+            npos = len(spec['col_labels']) if axis == 0 else len(spec['index_labels'])
+            keykind, positions = choose_key(ctx, npos)
+            yield frame_group_case(ctx, spec, ctx.rng.choice(spec['layouts']), axis, keykind, positions, 'api:frame.iter_group[forms]',
+                                   receiver=ctx.rng.choice([None, None, 'FrameHE']), form=form)
+        elif which == 'series':
+            kind = ctx.rng.choice(['int', 'str', 'bool', 'float', 'obj-int', 'obj-mix', 'uint', 'bytes', 'date'])
+            values = column_values(ctx.rng, kind, ctx.rng.randint(1, 8), 'dup')
+            s, index_labels = series_spec(ctx, kind, values, hier=ctx.rng.random() < 0.15)
+            if ctx.rng.random() < 0.3:
+                s = sf.SeriesHE(s)
+            rows = axis_rows(s, 0)
+            obj = _DTYPE[kind] is object
+            tags = fallback_tags({'api': 'series.iter_group', 'dtype': kind, 'receiver': type(s).__name__}, obj, False, values)
+            yield form_case(ctx, 'api:series.iter_group[forms]', {'values': [repr(v) for v in values], 'index': index_labels, 'kind': kind, 'receiver': type(s).__name__},
+                            tags, values, rows, 0, f'(M_unique_api {lit.b(obj)} (KCell 0) {rows_lit(rows)})', f'(S_group_api (KCell 0) {rows_lit(rows)})',
+                            lambda: s.iter_group(), lambda: s.iter_group_items(), form, 's.iter_group()', series_apply_finding=series_index_special(s))
+        else:
+            n = ctx.rng.randint(1, 8)
+            inner_kind = ctx.rng.choice(['int', 'str'])
+            labels = hier_labels(ctx.rng, n, ('str', inner_kind))
+            index = sf.IndexHierarchy.from_labels(labels)
+            depth = ctx.rng.choice([0, 1, 1, [0, 1], [1]])
+            ks = ('depth', depth) if isinstance(depth, int) else ('depths', depth)
+            obj = False if isinstance(depth, int) else resolved_obj([np.dtype('<U2') if d == 0 else (np.dtype(np.int64) if inner_kind == 'int' else np.dtype('<U1')) for d in depth])
+            which_c = ctx.rng.choice(['series', 'frame0', 'frame1'])
+            if which_c == 'series':
+                c, axis = sf.Series(np.arange(n), index=index), 0
+                itv, iti, callname = (lambda: c.iter_group_labels(depth)), (lambda: c.iter_group_labels_items(depth)), f'series.iter_group_labels({depth})'
+            elif which_c == 'frame0':
+                c, axis = sf.Frame(np.arange(n * 2).reshape(n, 2), index=index, columns=('x', 'y')), 0
+                itv, iti, callname = (lambda: c.iter_group_labels(depth, axis=0)), (lambda: c.iter_group_labels_items(depth, axis=0)), f'frame.iter_group_labels({depth}, axis=0)'
+            else:
+                c, axis = sf.Frame(np.arange(n * 2).reshape(2, n), index=('x', 'y'), columns=index), 1
+                itv, iti, callname = (lambda: c.iter_group_labels(depth, axis=1)), (lambda: c.iter_group_labels_items(depth, axis=1)), f'frame.iter_group_labels({depth}, axis=1)'
+            rows = axis_rows(c, axis)
+            keys = [(l[depth] if isinstance(depth, int) else tuple(l[d] for d in depth)) for l, _ in rows]
+            multi = ks[0] == 'depths'
+            tags = fallback_tags({'api': 'iter_group_labels', 'container': which_c, 'multi_depth': multi}, obj, multi, keys)
+            yield form_case(ctx, 'api:iter_group_labels[forms]', {'labels': [repr(l) for l in labels], 'depth_level': depth, 'container': which_c},
+                            tags, keys, rows, axis, f'(M_unique_api {lit.b(obj)} {keyspec_lit(ks)} {rows_lit(rows)})', f'(S_group_api {keyspec_lit(ks)} {rows_lit(rows)})',
+                            itv, iti, form, callname)
+
+
+def edge_cases(ctx):
+    '''empty and 1x1 shapes'''
+    import static_frame as sf
+    fixed = ctx
+    for nrows, ncols in ((0, 1), (0, 2), (1, 1), (1, 2), (2, 1)):
+        for family in ('I', 'S', 'M'):
+            spec = make_frame(ctx, family, nrows, ncols, mode='dup')
+            for layout in spec['layouts'][:3]:
+                for keykind, positions in (('element', [0]), ('list', [0]), ('list', list(range(ncols)))):
+                    yield frame_group_case(fixed, spec, layout, 0, keykind, positions, 'api:frame.iter_group_items[edge]')
+                if nrows:
+                    yield frame_group_case(fixed, spec, layout, 1, 'element', [0], 'api:frame.iter_group_items[edge]')
+                    yield frame_group_case(fixed, spec, layout, 1, 'list', [0], 'api:frame.iter_group_items[edge]')
+                f = build(spec, layout)
+                for axis in (0, 1):
+                    for sized in (True, False):
+                        p = dict(size=1, step=1, window_sized=sized, label_shift=0, start_shift=-1, size_increment=0)
+                        yield window_case(ctx, f, axis, p, 'api:frame.iter_window_items[edge]', dict(spec_desc(spec, layout), call='frame.iter_window_items(axis=axis, **params)'))
+
+
 def go_group_cases(ctx):
     '''FrameGO receivers, mostly on the generic path (list/slice keys, object key column) whose groups are FrameGO'''
     for i in range(ctx.n(24, 200)):
@@ -806,6 +1009,7 @@ def go_group_cases(ctx):
 _LONG_DTYPES = {     # key dtype -> (values to draw keys from, dtype, identity row for axis 1 or None)
     'int64': ([3, 1, 2, 7], np.int64), 'float64': ([2.5, 0.5, 1.0, 7.25], np.float64), 'bool': ([True, False], bool),
     'str': (['b', 'a', 'ab', 'c'], '<U2'), 'int16': ([3, 1, 2, 7], np.int16), 'uint8': ([3, 1, 2, 7], np.uint8),
+    'datetime64[D]': ([np.datetime64('2020-01-03'), np.datetime64('2019-12-31'), np.datetime64('2020-01-01'), np.datetime64('2021-05-05')], 'datetime64[D]'),
 }
 
 
@@ -833,7 +1037,7 @@ def long_group_cases(ctx):
         n = ctx.rng.randint(17, 60)
         k = 2 if kind == 'bool' else ctx.rng.randint(2, 4)
         keyv = interleaved_keys(ctx.rng, ctx.rng.sample(vals, k), n)
-        fam_kind = {'int64': 'int', 'int16': 'int', 'uint8': 'int', 'float64': 'float', 'bool': 'bool', 'str': 'str'}[kind]
+        fam_kind = {'int64': 'int', 'int16': 'int', 'uint8': 'int', 'float64': 'float', 'bool': 'bool', 'str': 'str', 'datetime64[D]': 'date'}[kind]
         if axis == 0:
             arrays = [np.array(keyv, dtype=dt), np.arange(n, dtype=np.int64)]
             labels = [f'r{j}' for j in range(n)]
@@ -857,7 +1061,7 @@ def labels_cases(ctx):
     import static_frame as sf
     for _ in range(ctx.n(60, 600)):
         n = ctx.rng.randint(1, 8)
-        inner_kind = ctx.rng.choice(['int', 'str'])
+        inner_kind = ctx.rng.choice(['int', 'str', 'date'])
         flat = ctx.rng.random() < 0.1
         labels = [f'r{i}' for i in range(n)] if flat else hier_labels(ctx.rng, n, ('str', inner_kind))
         index = sf.Index(labels) if flat else sf.IndexHierarchy.from_labels(labels)
@@ -873,7 +1077,7 @@ def labels_cases(ctx):
             else:
                 depth = ctx.rng.choice([[0, 1], [1, 0], [0], [1]])
                 ks = ('depths', depth)
-                obj = resolved_obj([np.dtype('<U2') if d == 0 else (np.dtype(np.int64) if inner_kind == 'int' else np.dtype('<U1')) for d in depth])
+                obj = resolved_obj([np.dtype('<U2') if d == 0 else {'int': np.dtype(np.int64), 'str': np.dtype('<U1'), 'date': np.dtype('datetime64[D]')}[inner_kind] for d in depth])
         apply_ = ctx.rng.random() < 0.35
         if which == 'series':
             c = sf.Series(np.arange(n), index=index)
@@ -1033,6 +1237,107 @@ def window_case(ctx, c, axis, p, stratum, desc, as_array=False, values_only=Fals
                 key=f'{stratum}|{n}|{axis}|{sorted(p.items())}|{desc.get("layout")}|{desc.get("labels")}')
 
 
+def spec_window_count(n, p):
+    '''how many windows the specification yields (own arithmetic; used only to put a case into a finding class)'''
+    if p['size'] <= 0 or p['step'] < 0:
+        return 0
+    cmax = n if p['start_shift'] >= 0 else n - p['start_shift']
+    count = 0
+    for i in range(cmax + 1):
+        left = p['start_shift'] + i * p['step']
+        size = p['size'] + i * p['size_increment']
+        if i and not (left <= cmax - 1 and size >= 0):
+            continue
+        lab = left + size - 1 + p['label_shift']
+        lo, hi = max(0, left), max(0, left + size)
+        length = max(0, min(hi, n) - min(lo, n))
+        if 0 <= lab < n and (not p['window_sized'] or length == size):
+            count += 1
+    return count
+
+
+_WFORMS = ['valid', 'func', 'valid+func', 'apply', 'apply_items', 'apply_iter', 'apply_pool', 'apply_pool_items']
+
+
+def window_form_case(ctx, c, axis, p, form, stratum, desc):
+    '''window_valid / window_func callbacks and the apply family over the window iterators'''
+    rows = axis_rows(c, axis)
+    kw = dict(p)
+    if c.ndim == 2:
+        kw['axis'] = axis
+    wlen = (lambda w: w.shape[0] if (w.ndim == 1 or axis == 0) else w.shape[1])
+    wrev = (lambda w: w.iloc[::-1] if (w.ndim == 1 or axis == 0) else w.iloc[:, ::-1])
+    code = {_hash_label(l): 1 << i for i, (l, _) in enumerate(rows)}
+    member_axis = (lambda g: g.index if (g.ndim == 1 or axis == 0) else g.columns)
+    fv = lambda g: sum(code[_hash_label(l)] for l in lit.labels(member_axis(g)))
+    as_pair = lambda sr: ([key_py(k) for k in lit.labels(sr.index)], sr.values.tolist())
+    ctx.count(f'{stratum}:{form}')
+    W = lambda model: f'({model} {rows_lit(rows)} {wparams_lit(p)})'
+    if form in ('valid', 'func', 'valid+func'):
+        if 'valid' in form:
+            kw['window_valid'] = lambda w: wlen(w) % 2 == 0
+        if 'func' in form:
+            kw['window_func'] = wrev
+        st, out = run(lambda: [(key_py(l), axis_rows(w, axis)) for l, w in c.iter_window_items(**kw)])
+        obs = res_lit(st, out, witems_lit)
+        mk = lambda model: f'wres_eqb (wpost {lit.b("valid" in form)} {lit.b("func" in form)} {W(model)}) {obs}'
+        call = f'c.iter_window_items(**params, {"window_valid=even number of rows, " if "valid" in form else ""}{"window_func=reverse" if "func" in form else ""})'
+    elif form == 'apply_iter':
+        st, out = run(lambda: [int(v) for v in c.iter_window(**kw).apply_iter(fv)])
+        obs = res_lit(st, out, lit.vlist)
+        mk = lambda model: f'avres_eqb {obs} (avalues (wapply {rows_lit(rows)} {W(model)}))'
+        call = 'list(c.iter_window(**params).apply_iter(bitmask))'
+    else:
+        if form == 'apply':
+            st, out = run(lambda: as_pair(c.iter_window(**kw).apply(fv)))
+        elif form == 'apply_items':
+            st, out = run(lambda: as_pair(c.iter_window_items(**kw).apply(lambda k, w: fv(w))))
+        elif form == 'apply_pool':
+            st, out = run(lambda: as_pair(c.iter_window(**kw).apply_pool(fv, use_threads=True, max_workers=2)))
+        else:
+            st, out = run(lambda: as_pair(c.iter_window_items(**kw).apply_pool(lambda kv: fv(kv[1]), use_threads=True, max_workers=2)))
+        obs = res_lit(st, out, apply_lit)
+        mk = lambda model: f'ares_eqb {obs} (wapply {rows_lit(rows)} {W(model)})'
+        call = {'apply': 'c.iter_window(**params).apply(bitmask)', 'apply_items': 'c.iter_window_items(**params).apply(lambda k, w: bitmask(w))',
+                'apply_pool': 'c.iter_window(**params).apply_pool(bitmask, use_threads=True, max_workers=2)',
+                'apply_pool_items': 'c.iter_window_items(**params).apply_pool(lambda kv: bitmask(kv[1]), use_threads=True, max_workers=2)'}[form]
+    desc = dict(desc, call=call, params=p, axis=axis, observed=repr(out)[:400])
+    tags = {'api': 'iter_window', 'form': form, 'ndim': c.ndim, 'axis': axis}
+    m = mk('M_windows')
+    if form in ('apply', 'apply_items', 'apply_pool', 'apply_pool_items'):
+        # the result index is built with a constructor taken from the container (node_iter.py:437-446); two classes, decided
+        # from the input, where the unchanged code gets it wrong (the model does not follow: only S is compared)
+        if c.ndim == 2 and ((axis == 1 and c.index.depth > 1) or (axis == 0 and not c.columns.STATIC)):
+            # axis 1: index.from_labels (a hierarchy) over flat column labels; axis 0: columns.from_labels of a FrameGO is IndexGO.from_labels
+            tags['finding'], m = 'C13-window-apply-index-constructor', None
+        elif c.ndim == 1 and c.index.depth > 1 and spec_window_count(len(rows), p) == 0:
+            tags['finding'], m = 'C13-window-apply-empty-hier', None
+    return Case(stratum, desc, m=m, s=mk('S_windows'), tags=tags,
+                nontrivial=st == 'ok' and len(out if isinstance(out, list) else out[0]) >= 1)
+
+
+def window_form_cases(ctx):
+    import static_frame as sf
+    for i in range(ctx.n(84, 700)):
+        form = _WFORMS[i % len(_WFORMS)]
+        applyish = form.startswith('apply')
+        p = dict(size=ctx.rng.randint(1, 4), step=ctx.rng.choice([1, 1, 2, 3] if applyish else [0, 1, 1, 2, 3]), window_sized=ctx.rng.random() < 0.5,
+                 label_shift=ctx.rng.choice([0, 0, -1, 1, -2, 2]), start_shift=ctx.rng.choice([0, 0, -1, 1, -2, 2]),
+                 size_increment=0 if applyish else ctx.rng.choice([0, 0, 1, -1]))
+        if (i // len(_WFORMS)) % 3 == 0:
+            n = ctx.rng.randint(0, 7)
+            kind = ctx.rng.choice(['int', 'str', 'float', 'uint', 'date'])
+            c, labels = series_spec(ctx, kind, column_values(ctx.rng, kind, n, 'dup'), hier=ctx.rng.random() < 0.2 and n > 0)
+            axis, desc = 0, {'container': 'series', 'kind': kind, 'index': [repr(l) for l in labels]}
+        else:
+            spec = make_frame(ctx, ctx.rng.choice(['N', 'M', 'I', 'T']), ctx.rng.randint(1, 6), ctx.rng.randint(1, 3), hier_index=ctx.rng.random() < 0.15)
+            layout = ctx.rng.choice(spec['layouts'])
+            receiver = ctx.rng.choice(['Frame', 'Frame', 'FrameGO', 'FrameHE'])
+            c, axis = build(spec, layout, cls=getattr(sf, receiver)), ctx.rng.choice([0, 1])
+            desc = dict(spec_desc(spec, layout), container=receiver)
+        yield window_form_case(ctx, c, axis, p, form, 'api:iter_window[forms]', desc)
+
+
 def window_grid():
     for n in range(0, 7):
         for size in range(1, 5):
@@ -1171,6 +1476,19 @@ def corpus_cases(ctx):
     yield window_case(fixed, fw, 1, dict(size=1, step=1, window_sized=True, label_shift=0, start_shift=-1, size_increment=0),
                       'corpus:window-array-axis1-empty', {'call': "sf.Frame.from_dict({'c0':[1,2],'c1':[3,4]}).iter_window_array_items(size=1, start_shift=-1, axis=1)"},
                       as_array=True)
+    # 1d. window apply: result index built with the constructor of the wrong axis / of an empty hierarchy
+    ihx = sf.IndexHierarchy.from_labels([('a', 1), ('a', 2)])
+    fh = sf.Frame(np.arange(4).reshape(2, 2), index=ihx, columns=('c0', 'c1'))
+    yield window_form_case(fixed, fh, 1, dict(size=1, step=1, window_sized=True, label_shift=0, start_shift=0, size_increment=0), 'apply',
+                           'corpus:window-apply-index-constructor', {'container': 'Frame(np.arange(4).reshape(2,2), index=IndexHierarchy[(a,1),(a,2)], columns=(c0,c1))'})
+    yield window_form_case(fixed, sf.Series([1, 2], index=ihx), 0, dict(size=3, step=1, window_sized=True, label_shift=0, start_shift=0, size_increment=0), 'apply',
+                           'corpus:window-apply-empty-hier', {'container': 'Series([1,2], index=IndexHierarchy[(a,1),(a,2)])'})
+    # 1e. Series.iter_group().apply on a Series with a date-typed index
+    sd = sf.Series([1, 2, 1], index=sf.IndexDate(['2020-01-01', '2020-01-02', '2020-01-03']))
+    rows_sd = axis_rows(sd, 0)
+    yield form_case(fixed, 'corpus:series-group-apply-index-constructor', {'container': "sf.Series([1,2,1], index=sf.IndexDate(['2020-01-01','2020-01-02','2020-01-03']))"},
+                    {'api': 'series.iter_group'}, [1, 2, 1], rows_sd, 0, f'(M_unique_api false (KCell 0) {rows_lit(rows_sd)})', f'(S_group_api (KCell 0) {rows_lit(rows_sd)})',
+                    lambda: sd.iter_group(), lambda: sd.iter_group_items(), 'apply', 's.iter_group()', series_apply_finding=True)
     # 2. one-row list key on axis 1 (raised ValueError before cf0ec12)
     arrays = [make_array('int', [1, 2]), make_array('int', [1, 3])]
     spec2 = dict(spec, kinds=['int', 'int'], cols=[[1, 2], [1, 3]], arrays=arrays, dtypes=[a.dtype for a in arrays], index_labels=['r0', 'r1'],
@@ -1203,9 +1521,12 @@ def cases(ctx):
     yield from corpus_cases(ctx)
     yield from series_group_cases(ctx)
     yield from frame_group_cases(ctx)
+    yield from forms_cases(ctx)
+    yield from edge_cases(ctx)
     yield from go_group_cases(ctx)
     yield from long_group_cases(ctx)
     yield from labels_cases(ctx)
     yield from kernel_cases(ctx)
     yield from window_cases(ctx)
+    yield from window_form_cases(ctx)
     yield from malformed_cases(ctx)
